@@ -1341,3 +1341,60 @@ CASES += [
          old="""            seg_tree: SegmentPoint::build(euler_vec, Min),""", new="""            seg_tree: SegmentPoint::build(euler_vec, Min),""".replace("Min),", "Min),")),
 ]
 CASES.pop()
+
+# ------------------------------------------------------------------ LP (literal packing)
+VL = "src/repr/var_label.rs"
+CASES += [
+    dict(name="lp-fields-overlap", file=VL, rule="LP", props=["C09", "C15"], expect="set_polarity:field-range",
+         old="""    raw_polarity set_polarity[63..64],""", new="""    raw_polarity set_polarity[62..64],"""),
+    dict(name="lp-negated-keeps-polarity", file=VL, rule="LP", props=["C15"], expect="negated:definition",
+         old="""        Literal::new(self.label(), !self.polarity())""", new="""        Literal::new(self.label(), self.polarity())"""),
+    dict(name="lp-implies-false-or", file=VL, rule="LP", props=["C15"], expect="implies_false:definition",
+         old="""        self.label() == other.label() && self.polarity() != other.polarity()""",
+         new="""        self.label() == other.label() || self.polarity() != other.polarity()"""),
+    dict(name="lp-polarity-inverted", file=VL, rule="LP", props=["C05", "C09", "C17"], expect="new:roundtrip",
+         old="""        self.raw_polarity() == 1""", new="""        self.raw_polarity() == 0"""),
+    dict(name="lp-new-polarity-inverted", file=VL, rule="LP", props=["C06"], expect="new:roundtrip",
+         old="""        ret.set_polarity(if polarity { 1 } else { 0 });""", new="""        ret.set_polarity(if polarity { 0 } else { 1 });"""),
+    dict(name="lp-new-label-shifted", file=VL, rule="LP", props=["C15"], expect="new:roundtrip",
+         old="""        ret.set_label(label.0);""", new="""        ret.set_label(label.0 << 1);"""),
+    # preserving
+    dict(name="lp-new-by-hand-ok", file=VL, rule="LP", props=["C09", "C15"], expect=None,
+         old="""        let mut ret = Literal { data: 0 };
+        ret.set_label(label.0);
+        ret.set_polarity(if polarity { 1 } else { 0 });
+        ret""",
+         new="""        Literal {
+            data: (label.0 & ((1u64 << 63) - 1)) | ((polarity as u64) << 63),
+        }"""),
+    dict(name="lp-polarity-nonzero-ok", file=VL, rule="LP", props=["C09"], expect=None,
+         old="""        self.raw_polarity() == 1""", new="""        self.raw_polarity() != 0"""),
+    dict(name="lp-implies-false-not-eq-ok", file=VL, rule="LP", props=["C15"], expect=None,
+         old="""        self.label() == other.label() && self.polarity() != other.polarity()""",
+         new="""        if self.label() != other.label() {
+            return false;
+        }
+        !(self.polarity() == other.polarity())"""),
+    dict(name="lp-negated-xor-ok", file=VL, rule="LP", props=["C15"], expect=None,
+         old="""        Literal::new(self.label(), !self.polarity())""",
+         new="""        let mut r = *self;
+        r.set_polarity(self.raw_polarity() ^ 1);
+        r"""),
+]
+
+# ------------------------------------------------------------------ EE counter (AssignmentIter)
+CNF = "src/repr/cnf.rs"
+CASES += [
+    dict(name="ee-counter-carry-or", file=CNF, rule="EE", props=["C15"], expect="next:counter",
+         old="""                    let new_carry = *cur_assgn && carry;""", new="""                    let new_carry = *cur_assgn || carry;"""),
+    dict(name="ee-counter-no-carry-in", file=CNF, rule="EE", props=["C15"], expect="next:counter",
+         old="""                (Vec::new(), true),""", new="""                (Vec::new(), false),"""),
+    dict(name="ee-counter-short-first", file=CNF, rule="EE", props=["C15"], expect="next:counter",
+         old="""            self.cur = Some((0..self.num_vars).map(|_| false).collect());""",
+         new="""            self.cur = Some((1..self.num_vars).map(|_| false).collect());"""),
+    dict(name="ee-counter-xor-as-ne-ok", file=CNF, rule="EE", props=["C15"], expect=None,
+         old="""                    let new_itm = cur_assgn ^ carry;""", new="""                    let new_itm = *cur_assgn != carry;"""),
+    dict(name="ee-counter-vec-macro-ok", file=CNF, rule="EE", props=["C15"], expect=None,
+         old="""            self.cur = Some((0..self.num_vars).map(|_| false).collect());""",
+         new="""            self.cur = Some(vec![false; self.num_vars]);"""),
+]
